@@ -1,0 +1,37 @@
+//go:build verif
+
+package putsvc
+
+import (
+	"context"
+
+	objectcore "github.com/nspcc-dev/neofs-node/pkg/core/object"
+	"github.com/nspcc-dev/neofs-sdk-go/container"
+	"github.com/nspcc-dev/neofs-sdk-go/object"
+	oid "github.com/nspcc-dev/neofs-sdk-go/object/id"
+	"go.uber.org/zap"
+)
+
+// VerifTarget has the method set of the package's internal object target.
+type VerifTarget interface {
+	WriteHeader(*object.Object) error
+	Write([]byte) (int, error)
+	Close() (oid.ID, error)
+}
+
+// VerifNewValidatingTarget builds the real validatingTarget of the PUT pipeline over
+// the given downstream target (verification harness only).
+func VerifNewValidatingTarget(next VerifTarget, fmtV *objectcore.FormatValidator, unprepared bool, maxPayloadSz uint64,
+	quota QuotaLimiter, cnr container.Container, isECPart bool) VerifTarget {
+	return &validatingTarget{
+		l:                zap.NewNop(),
+		ctx:              context.Background(),
+		nextTarget:       next,
+		fmt:              fmtV,
+		unpreparedObject: unprepared,
+		quotaLimiter:     quota,
+		maxPayloadSz:     maxPayloadSz,
+		cachedCnr:        cnr,
+		isECPart:         isECPart,
+	}
+}
